@@ -28,6 +28,8 @@ import (
 	"strconv"
 	"strings"
 	"sync"
+	"sync/atomic"
+	"time"
 
 	"go.uber.org/zap"
 
@@ -135,6 +137,25 @@ func safely(f func() string) (res string) {
 		}
 	}()
 	return f()
+}
+
+// hangs counts implementation calls that did not return in time.  Such a call keeps running in its goroutine (it may
+// hold the fraction's read lock), so after a few of them the generators stop producing further cases.
+var hangs int32
+
+func tooManyHangs() bool { return atomic.LoadInt32(&hangs) >= 4 }
+
+// within runs an implementation call with a time limit; "hang" is the observation when it does not come back.
+func within(d time.Duration, f func() string) string {
+	ch := make(chan string, 1)
+	go func() { ch <- safely(f) }()
+	select {
+	case r := <-ch:
+		return r
+	case <-time.After(d):
+		atomic.AddInt32(&hangs, 1)
+		return "hang"
+	}
 }
 
 // ---------------------------------------------------------------- queries
@@ -816,6 +837,24 @@ func (g gen) window(maxMid, ndocs int) window {
 	return w
 }
 
+// gapWindow: documents of a gappy corpus have mids that are multiples of 3; the window lies strictly inside a gap
+// between two possible mids (no document can be inside), or touches exactly one end of the gap.
+func (g gen) gapWindow(maxMid, ndocs int) window {
+	w := g.window(maxMid, ndocs)
+	a := uint64(3 * g.r.Intn(maxMid+1))
+	switch g.r.Intn(4) {
+	case 0:
+		w.from, w.to = a+1, a+2
+	case 1:
+		w.from, w.to = a+1, a+1
+	case 2:
+		w.from, w.to = a+1, a+3 // touches the upper end
+	default:
+		w.from, w.to = a, a+2 // touches the lower end
+	}
+	return w
+}
+
 func (w window) String() string {
 	return fmt.Sprintf("%s %d %d %d %s", ord(w.order), w.from, w.to, w.limit, vh.B(w.withTotal))
 }
@@ -841,7 +880,10 @@ func chanIndexSearch(o vh.Opts, g gen) *vh.Channel {
 		f := indexOf(docs)
 		ast := g.ast(g.r.Range(0, 4), g.leaf)
 		w := g.window(maxMid, len(ids))
-		impl := safely(func() string {
+		if tooManyHangs() {
+			break
+		}
+		impl := within(10*time.Second, func() string {
 			return qprAnswer(processor.IndexSearch(context.Background(), processor.SearchParams{AST: ast, From: seq.MID(w.from), To: seq.MID(w.to), Limit: w.limit, WithTotal: w.withTotal, Order: w.order}, f, processor.AggLimits{}, stopwatch.New()))
 		})
 		ch.Add(fmt.Sprintf("search %s %s %s %s", w, fmtIDs(ids), f.toksString(), encAST(ast)), impl, nonEmpty(impl), w.tags()...)
@@ -1233,7 +1275,7 @@ func (e *env) seal(a *frac.Active, base string) (preloaded, reopened *frac.Seale
 }
 
 func searchFrac(f frac.Fraction, ast *parser.ASTNode, w window) string {
-	return safely(func() string {
+	return within(20*time.Second, func() string {
 		dp, release := f.DataProvider(context.Background())
 		defer release()
 		return qprAnswer(dp.Search(processor.SearchParams{AST: ast, From: seq.MID(w.from), To: seq.MID(w.to), Limit: w.limit, WithTotal: w.withTotal, Order: w.order}))
@@ -1515,6 +1557,11 @@ func runCorpus(e *env, h *history, act *vh.Channel) ([]sysCase, error) {
 		a.Release()
 		return cases, nil
 	}
+	for _, c := range cases {
+		if c.impl == "hang" { // a search is still running inside the active fraction and holds its read lock: do not seal
+			return cases, nil
+		}
+	}
 	pre, re, err := e.seal(a, base)
 	if err != nil {
 		return nil, err
@@ -1557,7 +1604,7 @@ func pairProbe(a, b *sealedRef) []sysCase {
 	params := func(s step) processor.SearchParams {
 		return processor.SearchParams{AST: s.ast, From: seq.MID(s.w.from), To: seq.MID(s.w.to), Limit: s.w.limit, WithTotal: s.w.withTotal, Order: s.w.order}
 	}
-	failed := safely(func() string {
+	failed := within(20*time.Second, func() string {
 		ctx, cancel := context.WithCancel(context.Background())
 		cancel()
 		dp, rel := a.f.DataProvider(ctx)
@@ -1569,7 +1616,7 @@ func pairProbe(a, b *sealedRef) []sysCase {
 		return "err"
 	})
 	var r1, r2, r3 string
-	all := safely(func() string {
+	all := within(40*time.Second, func() string {
 		dpA, relA := a.f.DataProvider(context.Background())
 		defer relA()
 		dpB, relB := b.f.DataProvider(context.Background())
@@ -1579,7 +1626,9 @@ func pairProbe(a, b *sealedRef) []sysCase {
 		r3 = safely(func() string { return qprAnswer(dpA.Search(params(sa))) })
 		return "ok"
 	})
-	if all != "ok" || failed == "panic" {
+	if all == "hang" || failed == "hang" {
+		r1, r2, r3 = "hang", "hang", "hang"
+	} else if all != "ok" || failed == "panic" {
 		r1, r2, r3 = "panic", "panic", "panic"
 	}
 	da, db := docsString(a.h.docs), docsString(b.h.docs)
@@ -1745,14 +1794,40 @@ func main() {
 				if c < 3 {
 					n = c // 0, 1, 2 documents
 				}
+				if tooManyHangs() {
+					break
+				}
 				maxMid := g.r.Range(1, 8)
 				docs := g.corpus(n, maxMid)
+				gappy := c%3 == 2 // mids 3, 6, 9, ...: holes in time inside the fraction
+				if gappy {
+					for i := range docs {
+						docs[i].id.MID *= 3
+					}
+				}
 				nq := o.Pick(8, 12)
 				var qs []*parser.ASTNode
 				var ws []window
 				for k := 0; k < nq; k++ {
-					qs = append(qs, g.ast(g.r.Range(0, 4), g.leaf))
-					ws = append(ws, g.window(maxMid, n))
+					q := g.ast(g.r.Range(0, 4), g.leaf)
+					w := g.window(maxMid, n)
+					if gappy {
+						w.from, w.to = 3*w.from, 3*w.to
+						if w.to/3 > uint64(maxMid)+3 { // keep MaxUint64 as it is
+							w.to = ^uint64(0)
+						}
+						if g.r.Bool() {
+							w = g.gapWindow(maxMid, n)
+							switch g.r.Intn(3) { // a real NOT node: at the root, or under OR (A AND NOT B would become a NAND)
+							case 0:
+								q = logical(3, q)
+							case 1:
+								q = logical(1, g.ast(1, g.leaf), logical(3, q))
+							}
+						}
+					}
+					qs = append(qs, q)
+					ws = append(ws, w)
 				}
 				cs, err := runCorpus(e, plan(g, docs, g.r.Range(1, 25), qs, ws, true), actCh)
 				if err != nil {
@@ -1764,7 +1839,7 @@ func main() {
 			// corpora with nested metas (several LIDs per ID): compared with Spec.search over the *metas*
 			// (c02_nested_result); how often `total` differs from the number of matching documents is recorded
 			gn := gen{g.r.Fork()}
-			for c := 0; c < o.Pick(60, 600) && orc.Error == ""; c++ {
+			for c := 0; c < o.Pick(60, 600) && orc.Error == "" && !tooManyHangs(); c++ {
 				n := gn.r.Range(1, 30)
 				maxMid := gn.r.Range(1, 6)
 				docs := gn.nestedCorpus(n, maxMid)
@@ -1783,7 +1858,7 @@ func main() {
 			}
 			// one token spanning three LID blocks (LIDBlockCap = 64Ki): 135000 documents all carrying `_all_`, asked on the
 			// sealed forms only, windows at the old end of the fraction (beyond the token's first two LID blocks)
-			if orc.Error == "" {
+			if orc.Error == "" && !tooManyHangs() {
 				const nBig = 135000
 				docs := make([]doc, nBig)
 				for k := range docs {
@@ -1812,7 +1887,7 @@ func main() {
 				}
 				sys = append(sys, cs...)
 			}
-			if o.Thorough() && orc.Error == "" {
+			if o.Thorough() && orc.Error == "" && !tooManyHangs() {
 				// large corpora: 5000 docs (several ID blocks of 4096), 70000 docs (the `_all_` posting list exceeds one
 				// LID block of 64Ki, windows narrow so that the borders cut inside blocks)
 				for _, big := range []struct{ n, maxMid, nq, width, bulk int }{{5000, 40, 10, 40, 700}, {70000, 3000, 6, 30, 7000}} {
